@@ -298,11 +298,11 @@ def evaluate(case, stats=None):
             if len(build.accepted) >= MAX_ACCEPTED:
                 break
             statuses.append(build.step(step).split(":")[0] + ":" + step["t"])
+        nloops, nhx = build.counts()
         status, text = build.generate()
         if status != "ok":
             return ("discard", "generation refused: " + text.split(":")[0])
         events = H.parse_psy(text)
-        nloops, nhx = build.counts()
         got_loops = sum(len(e["calls"]) for e in events if e["ev"] == "loop")
         got_hx = sum(1 for e in events if e["ev"] == "hx")
         if (got_loops, got_hx) != (nloops, nhx):
@@ -392,7 +392,7 @@ def cls_write_only_annexed(case):
     and include a field on a discontinuous space reads a continuous field
     without stencil: check (a) fails on annexed DoFs for that kernel."""
     spec = case["spec"]
-    if spec["annexed"] or case.get("bucket") != "a":
+    if spec["annexed"] or case.get("bucket") != "a:annexed_cell":
         return False
     msg = case.get("message_key", "")
     if "annexed DoFs of a continuous field" not in msg:
